@@ -681,7 +681,29 @@ impl QueryJob {
         let (rules, base_data) = storage
             .get_rules_and_data(&kg_name)
             .map_err(|e| format!("Failed to access knowledge graph: {e}"))?;
+        // Body atoms over relations that are defined by rules can only be checked
+        // against the derived facts: evaluate the relation (one snapshot for rules,
+        // base data and derived data), as .why does. Without them every clause that
+        // mentions a derived relation looks blocked, and derived negated atoms never do.
+        let derived_context = if rules.iter().any(|r| r.head.relation == relation) {
+            let vars: Vec<String> = (0..tuple.arity()).map(|i| format!("V{i}")).collect();
+            transform_query_shorthand(&format!("?{relation}({})", vars.join(", ")))
+                .ok()
+                .and_then(|t| storage.execute_and_get_context(&kg_name, &t.query).ok())
+        } else {
+            None
+        };
+        let (rules, base_data, derived_data) = match derived_context {
+            Some((_rows, rules, base_data, derived_data, _metrics)) => {
+                (rules, base_data, Some(derived_data))
+            }
+            None => (rules, base_data, None),
+        };
         let ctx = ProofContext::new(&rules, &base_data, ProofConfig::default());
+        let ctx = match derived_data.as_ref() {
+            Some(derived) => ctx.with_derived_data(derived),
+            None => ctx,
+        };
         let query_us = query_start.elapsed().as_micros() as u64;
 
         let explain_start = std::time::Instant::now();
